@@ -705,6 +705,41 @@ func runStages(c *core.Ctx) []core.Obligation {
 		}
 		add("sin2-after-cos:"+name, fn, ok, "every sin^2 triage is reached only after the cosine triage returned 0", why)
 	}
+	// (8c) a constant "equal" answer is given only for bit-identical arguments: a floating-point computation that comes out
+	// as exactly zero proves nothing about the exact quantity, so it must go on to the exact stage
+	for _, name := range []string{"SignDotProd", "CompareDistances", "CompareDistance"} {
+		fn := c.Fn("s2", "", name)
+		if fn == nil {
+			add("zero-only-exact:"+name, nil, false, "", "unresolved anchor")
+			continue
+		}
+		ok, why, nzero := true, "", 0
+		for _, rb := range retConstBlocks(fn, 0) {
+			nzero++
+			justified := false
+			for _, b := range fn.Blocks {
+				iff, isIf := b.Instrs[len(b.Instrs)-1].(*ssa.If)
+				if !isIf {
+					continue
+				}
+				bo, isBo := iff.Cond.(*ssa.BinOp)
+				if !isBo || bo.Op != token.EQL {
+					continue
+				}
+				if _, isStruct := bo.X.Type().Underlying().(*types.Struct); !isStruct {
+					continue
+				}
+				if core.EdgeDominates(core.Edge{From: b, Idx: 0}, rb) {
+					justified = true
+				}
+			}
+			if !justified {
+				ok = false
+				why = name + " returns the constant 0 on a path that is not guarded by the identity of two of its point arguments: a float result that happens to be exactly zero (cancellation, underflow) does not mean the exact quantity is zero, so distinct inputs are reported as tied"
+			}
+		}
+		add("zero-only-exact:"+name, fn, ok, fmt.Sprintf("%d constant-zero returns, each behind an identity test of two arguments; every other zero comes from the exact stage", nzero), why)
+	}
 	// (9) who may call the incomplete stages: triageSign and stableSign may answer Indeterminate and expensiveSign/exactSign
 	// have preconditions; only the staged evaluators (which go on to the next stage) may call them. Anything else that
 	// needs an orientation calls RobustSign/Sign.
